@@ -25,7 +25,6 @@ from __future__ import annotations
 import copy
 
 from ..core import TLA, MachineryError
-from ..par import pmap
 
 META = {
     "title": "Configuration changes are scoped, atomic and spelling-insensitive",
@@ -326,13 +325,6 @@ def judge_fn(c, e, rng=None):
     return []
 
 
-_ITEMS = []
-
-
-def _work_idx(i):
-    return _work(_ITEMS[i])
-
-
 def _work(item):
     kind, case = item
     if kind == "state":
@@ -500,15 +492,9 @@ def fn_cases(ctx, vals, label, fam="all"):
 
 def judge_all(items, report, skip, count):
     """items: list of ("state"|"fn", case).  Shared by run() and selftest()."""
-    # ~0.25 ms per case: forking only pays for the big thorough-tier sets; the forked workers read the
-    # cases from inherited memory (only indices and verdicts cross the pipe)
-    global _ITEMS
-    if len(items) > 60000:
-        _ITEMS = items
-        results = pmap(_work_idx, range(len(items)), chunk=5000)
-        _ITEMS = []
-    else:
-        results = [_work(x) for x in items]
+    # ~0.25 ms per case.  Serial on purpose: handing the cases to forked workers costs more than it saves
+    # (pickling them, or - when inherited - copy-on-write of the whole case list through reference counts).
+    results = [_work(x) for x in items]
     for (kind, case), res in zip(items, results):
         if kind == "state":
             key = ("state", case["init"], [s["asgs"] for s in case["sets"]], case["last"])
@@ -578,7 +564,7 @@ def run(ctx):
                 (TEXT_PATHS, 2, 2, TEXT, "design+states: text values, 2 assignments/call, nesting 2"),
                 ("StdPaths", 1, 2, TEXT, "design+states: text values, 1 assignment/call, nesting 2"),
                 (TINY_PATHS, 2, 3, LEAF, "design+states: 2 assignments/call, nesting 3")]
-        cap = 80000
+        cap = 60000
     # code -> spec recording first (pure Python, seeded), then all TLC runs side by side
     side = []
     recs = record_all(ctx, ctx.pick(1500, 20000), ctx.pick(1500, 20000), lambda *a: side.append(a))
